@@ -64,7 +64,11 @@ func Ctx(g *G, nprog, steps int) []Program {
 				case 0:
 					g.Emit(M{"op": "Ctx.NewDec", "c": "c0", "z": z})
 				case 1:
-					g.Emit(M{"op": "Ctx.NewFloat64", "c": "c0", "z": z, "bits": strconv.FormatUint(g.f64bits(), 10)})
+					bits := g.f64bits()
+					if g.R.Intn(4) == 0 {
+						bits = 0x7ff8000000000001 // NaN: the one factory argument that "would produce a NaN"
+					}
+					g.Emit(M{"op": "Ctx.NewFloat64", "c": "c0", "z": z, "bits": strconv.FormatUint(bits, 10)})
 				case 2:
 					s := M{"op": "Ctx.NewFloat", "c": "c0", "z": z}
 					g.bigFloatArgs(s, g.Pick(1, 24, 53, 64, 100, 1+g.R.Intn(200)))
